@@ -20,7 +20,7 @@ using namespace ipr;
 enum Op : std::uint8_t {
    N_IDENT, N_OPERATOR, N_CONVERSION, N_CTOR, N_DTOR, N_SUFFIX, N_TEMPLATE_ID, N_TYPE_ID,
    T_BUILTIN, T_POINTER, T_REFERENCE, T_RVREF, T_ARRAY, T_QUALIFIED, T_PRODUCT, T_FUNCTION, T_FUNCTION_THROWS, T_PTR_TO_MEMBER, T_FORALL,
-   T_CLASS, T_UNION, T_ENUM, T_NAMESPACE, T_AS_TYPE, T_DECLTYPE, T_AUTO,
+   T_CLASS, T_UNION, T_ENUM, T_NAMESPACE, T_AS_TYPE, T_DECLTYPE, T_AUTO, T_SUM,
    X_LITERAL, X_ID_EXPR, X_ID_DECL, X_SYMBOL, X_UNARY, X_BINARY, X_CONDITIONAL, X_XLIST, X_CALL, X_CAST, X_ENCLOSURE, X_CONSTRUCTION, X_MEMBER_INIT, X_NEW,
    X_PHANTOM, X_UNSUPPORTED,
    S_EXPR, S_BLOCK, S_ADD, S_HANDLER, S_HADD, S_IF, S_IF_ELSE, S_WHILE, S_DO, S_SWITCH, S_FOR, S_FOR_IN, S_RETURN, S_BREAK, S_CONTINUE, S_GOTO, S_LABELED, S_CTOR_BODY,
@@ -33,7 +33,7 @@ inline const char* op_name(int o)
 {
    static const char* n[] = { "ident", "operator", "conversion", "ctor", "dtor", "suffix", "template-id", "type-id",
       "builtin", "pointer", "reference", "rvref", "array", "qualified", "product", "function", "function-throws", "ptr-to-member", "forall",
-      "class", "union", "enum", "namespace", "as-type", "decltype", "auto",
+      "class", "union", "enum", "namespace", "as-type", "decltype", "auto", "sum",
       "literal", "id-expr", "id-decl", "symbol", "unary", "binary", "conditional", "xlist", "call", "cast", "enclosure", "construction", "member-init", "new",
       "phantom", "unsupported",
       "expr-stmt", "block", "add-stmt", "handler", "handler-add", "if", "if-else", "while", "do", "switch", "for", "for-in", "return", "break", "continue", "goto", "labeled", "ctor-body",
@@ -157,6 +157,7 @@ struct Exec {
       case T_ARRAY: as_type(lex.get_array(T(st.a), X(st.b))); break;
       case T_QUALIFIED: as_type(lex.get_qualified(Qualifiers(std::uintptr_t(st.num)), T(st.a))); break;
       case T_PRODUCT: { warehouses.emplace_back(); auto& w = warehouses.back(); for (int k : st.list) w.push_back(T(k)); as_type(lex.get_product(w)); break; }
+      case T_SUM: { warehouses.emplace_back(); auto& w = warehouses.back(); for (int k : st.list) w.push_back(T(k)); as_type(lex.get_sum(w)); break; }
       case T_FUNCTION: as_type(lex.get_function(static_cast<const Product&>(T(st.a)), T(st.b))); break;
       case T_FUNCTION_THROWS: as_type(lex.get_function(static_cast<const Product&>(T(st.a)), T(st.b), X(st.c))); break;
       case T_PTR_TO_MEMBER: as_type(lex.get_ptr_to_member(T(st.a), T(st.b))); break;
@@ -369,7 +370,7 @@ struct Gen {
       case 2: st.op = T_RVREF; st.a = type(depth + 1); break;
       case 3: st.op = T_ARRAY; st.a = type(depth + 1); st.b = pick(exprs); break;
       case 4: st.op = T_QUALIFIED; st.a = type(depth + 1); st.num = 1 + (long long)rng.below(7); break;
-      case 5: { int prod = product(depth + 1); st.op = rng.chance(30) ? T_FUNCTION_THROWS : T_FUNCTION; st.a = prod; st.b = type(depth + 1); if (st.op == T_FUNCTION_THROWS) st.c = rng.chance(30) ? pick(types) /* throw(T) */ : pick(exprs); break; }
+      case 5: { int prod = product(depth + 1); st.op = rng.chance(30) ? T_FUNCTION_THROWS : T_FUNCTION; st.a = prod; st.b = type(depth + 1); if (st.op == T_FUNCTION_THROWS) st.c = rng.chance(30) ? pick(types) /* throw(T) */ : rng.chance(45) ? sum(depth + 1) /* throw(A, B, ...) */ : pick(exprs); break; }
       case 6: if (!udt_types.empty()) { st.op = T_PTR_TO_MEMBER; st.a = pick(udt_types); st.b = type(depth + 1); break; } [[fallthrough]];
       case 7: if (o.unsupported && rng.chance(30)) { st.op = rng.chance(50) ? T_DECLTYPE : T_AUTO; if (st.op == T_DECLTYPE) st.a = pick(exprs); break; } [[fallthrough]];
       default: st.op = T_AS_TYPE; st.a = pick(exprs); break;
@@ -381,6 +382,14 @@ struct Gen {
    int compound_non_udt_type()
    {
       Step st { T_POINTER }; st.op = rng.chance(50) ? T_POINTER : T_REFERENCE; st.a = types[rng.below(8)];
+      return push(st);
+   }
+   // a sum of 0..4 alternatives, compound types among them (their relative addresses differ from one construction to the next),
+   // an alternative given twice now and then
+   int sum(int depth)
+   {
+      Step st { T_SUM }; int n = int(rng.below(5)); for (int k = 0; k < n; ++k) st.list.push_back(rng.chance(60) ? compound_non_udt_type() : type(depth + 1));
+      if (n >= 2 && rng.chance(25)) st.list.push_back(st.list[0]);
       return push(st);
    }
    int product(int depth)
